@@ -28,7 +28,7 @@ pending = set()
 def flt(r): return [x for x in r[1] if not x.startswith('__') and x not in dir(__builtins__)]
 def req(label, src, pos):
     global pending
-    for m in importers_closure(pending, mods) if pending else ():
+    for m in (importers_closure(pending, mods) - pending) if pending else ():  # proper importers only
         P2._module_cache.pop(m, None)
     pending = set()
     with P.check_changes(): r = flt(assist(P, src, pos, R + '/main.py'))
